@@ -964,6 +964,32 @@ def opFacts : OpFacts :=
 				}
 			}
 		}
+		// arrayLitExpr: the counter tested by the bounds case of a positional element; the running index is set from the
+		// key, tested for duplicates and incremented
+		arrLit := ".other " + common.LeanStr("unrecognised: arrayLitExpr")
+		if fd := common.FindFunc(tc, "typecheck", "arrayLitExpr"); fd != nil {
+			body := src(fd)
+			var bound []string
+			ast.Inspect(fd, func(n ast.Node) bool {
+				if cc, ok := n.(*ast.CaseClause); ok && len(cc.List) == 1 && strings.HasPrefix(src(cc.List[0]), "cat == arrayT &&") {
+					bound = append(bound, src(cc.List[0]))
+				}
+				return true
+			})
+			shape := strings.Contains(body, "index := 0 for _, c := range child {") || strings.Contains(body, "index := 0 for i, c := range child {")
+			shape = shape && strings.Contains(body, "index = int(vInt(c.child[0].rval))") && strings.Contains(body, "if visited[index] {") &&
+				strings.Contains(body, "visited[index] = true index++") && strings.Contains(body, "check.index(c.child[0], length)")
+			switch {
+			case !shape || len(bound) != 1:
+				arrLit = ".other " + common.LeanStr(strings.Join(bound, " ; "))
+			case bound[0] == "cat == arrayT && index >= length":
+				arrLit = ".runningIndex"
+			case bound[0] == "cat == arrayT && i >= length" && strings.Contains(body, "for i, c := range child {"):
+				arrLit = ".loopPosition"
+			default:
+				arrLit = ".other " + common.LeanStr(bound[0])
+			}
+		}
 		fmt.Fprintf(&b, `/-- interp/cfg.go call sites of the checker and guards; interp/typecheck.go arguments -/
 def tcFacts : TcFacts :=
   { ops := opFacts,
@@ -985,9 +1011,10 @@ def tcFacts : TcFacts :=
     recvDecl := %s,
     recvAssign := %s,
     callValueChecked := %v,
-    convTypedConstChecked := %v }
+    convTypedConstChecked := %v,
+    arrayLitBound := %s }
 `, landLor, send, sendDir, argCmp, retMany, retFew, guardedAll, assertSkip, retConst, cmpErrKept, zeroMode, opAssignZero, quoFloat,
-			indexNeg, indexOperand, recvDecl, recvAssign, callValue, convTyped)
+			indexNeg, indexOperand, recvDecl, recvAssign, callValue, convTyped, arrLit)
 
 		// ---- pipeline
 		funcs, err := pkgFuncs(repo)
@@ -1078,7 +1105,8 @@ def pipeline : PipelineFacts :=
 		var rows []string
 		row := func(label, h string) { rows = append(rows, "("+common.LeanStr(label)+", "+common.LeanStr(h)+")") }
 		for _, fn := range []string{"op", "assignment", "assignExpr", "unaryExpr", "shift", "comparison", "binaryExpr", "index", "conversion",
-			"unpackParams", "arguments", "argument", "convertUntyped", "representable", "convertConst", "typeAssertionExpr", "logicalExpr", "callValue"} {
+			"unpackParams", "arguments", "argument", "convertUntyped", "representable", "convertConst", "typeAssertionExpr", "logicalExpr", "callValue",
+			"arrayLitExpr", "mapLitExpr", "structLitExpr", "structBinLitExpr", "sliceExpr", "addressExpr", "starExpr", "switchCases", "builtin", "constExpr"} {
 			row("typecheck."+fn, common.FuncHash(fsetT, tc, "typecheck", fn))
 		}
 		for _, fn := range []string{"zeroConst", "getArg", "representableConst", "isShiftAction", "isComparisonAction", "isComparison"} {
@@ -1114,6 +1142,7 @@ def pipeline : PipelineFacts :=
 		if pre := cl["binaryExpr"]; len(pre) > 0 {
 			row("cfg pre-order case binaryExpr", clauseHash(pre[0])) // type propagation from the enclosing statement / operator
 		}
+		row("cfg case compositeLitExpr", clauseHash(clauseWith(cl, "compositeLitExpr", "check.arrayLitExpr(")))
 		row("cfg case assignStmt", clauseHash(clauseWith(cl, "assignStmt", "check.assignExpr(n, dest, src)")))
 		row("cfg case callExpr", clauseHash(clauseWith(cl, "callExpr", "check.arguments(")))
 		b.WriteString("/-- fingerprints of the functions and cfg.go clauses that Model/Typecheck.lean transcribes -/\ndef sourceHashes : List (String × String) :=\n  [" +
